@@ -58,14 +58,14 @@ def check_case(case) -> Outcome:
     df = F.build(fr)
     s = F.formula_string(fc)
     caller = None if case["drop"] is None else {p % n for p in case["drop"]}
-    two = entry == "twosided"
+    two = entry in ("twosided", "specs-overrides")
     ycol = "z"
     nul = null_rows(fc, fr, extra_cols=[ycol] if two else [])
     feat = dict(na=na, entry=entry, output=output, index="default" if fr.get("index") is None else case["index_kind"])
     out.label("na:" + na, "entry:" + entry, "index:" + feat["index"], "out:" + output)
     if nul:
         out.label("has-nulls")
-    out.nontrivial = bool(nul) and (fr.get("index") is not None or caller is not None or two or entry == "spec-overrides")
+    out.nontrivial = bool(nul) and (fr.get("index") is not None or caller is not None or two or entry in ("spec-overrides", "materializer-reused"))
     passed = None if caller is None else set(caller)
     opts = dict(na_action=na, output=output, ensure_full_rank=efr)
 
@@ -80,6 +80,19 @@ def check_case(case) -> Outcome:
             return ModelSpec.from_spec(Formula(s)).get_model_matrix(df, drop_rows=passed, **opts)
         if entry == "twosided":
             return model_matrix(f"{ycol} ~ {s}", df, drop_rows=passed, **opts)
+        if entry == "specs-overrides":
+            # a structured set of specs, options given as overrides
+            return ModelSpec.from_spec(Formula(f"{ycol} ~ {s}")).get_model_matrix(df, drop_rows=passed, context={}, **opts)
+        if entry == "materializer-reused":
+            # one materializer instance serving an earlier call (other formula, other dropped rows) and then this one
+            from formulaic.materializers import PandasMaterializer
+
+            m = PandasMaterializer(df, context={})
+            try:
+                m.get_model_matrix("x + y", drop_rows={fr["n"] - 1}, output=output, na_action="ignore")
+            except Exception:
+                pass
+            return m.get_model_matrix(s, drop_rows=passed, **opts)
         raise ValueError(entry)
 
     if na == "raise":
@@ -134,6 +147,14 @@ def gen(max_rows=10):
     def strat(draw):
         kind = draw(st.sampled_from(INDEX_KINDS))
         fr = draw(F.frame(min_rows=1, max_rows=max_rows, nulls=True, index_kinds=(kind,)))
+        if draw(st.integers(0, 3)) == 0:
+            # infinite values are not missing values
+            for c in ("x", "y"):
+                if fr["cols"][c]["dtype"] == "float64":
+                    vals = fr["cols"][c]["values"]
+                    pos = draw(st.integers(0, len(vals) - 1))
+                    if vals[pos] is not None:
+                        vals[pos] = draw(st.sampled_from([float("inf"), float("-inf")]))
         fc = draw(F.formulas(max_terms=3, max_factors=2))
         if draw(st.integers(0, 5)) == 0:
             fc = {"intercept": fc["intercept"], "terms": F.normalize_terms(fc["terms"] + [[{"k": "hashed", "col": "G", "levels": 3}]])}
@@ -141,7 +162,7 @@ def gen(max_rows=10):
         return {
             "frame": fr, "index_kind": kind, "formula": fc, "na_action": na,
             "drop": draw(st.one_of(st.none(), st.lists(st.integers(0, 30), max_size=4))),
-            "entry": draw(st.sampled_from(["model_matrix", "formula", "spec", "spec-overrides", "twosided"])),
+            "entry": draw(st.sampled_from(["model_matrix", "formula", "spec", "spec-overrides", "twosided", "specs-overrides", "materializer-reused"])),
             "output": draw(st.sampled_from(["pandas", "pandas", "numpy", "sparse"])),
             "efr": draw(st.booleans()),
         }
